@@ -1,6 +1,7 @@
 import Femio.Driver.Proto
 import Femio.Model.UcdText
 import Femio.Model.UcdFem
+import Femio.Model.UcdHist
 /-! driver commands for C04 (AVS UCD)
 
 ```
@@ -14,6 +15,9 @@ c04.write <alignById 0|1> <fem>  -> ok <hyp 0|1> <text>
 c04.read <text>   -> ok 0 | ok 1 <nodes> <blocks> <nodal tables: list(tab)> <elemental tables: list(tab)>
       -- `readText` (lines between newlines, whitespace lexer, positional reader) then `readTables`
 c04.ws            -> ok list(nat)                       -- the lexer's whitespace code points (`Femio.Text.wsCodes`)
+c04.session <fromPublicViews 0|1> list(step)  -> ok list(nat text)
+      -- step := a <fem> | i <fem> | w <path: nat>   (`Step.assign`, `Step.inplace`, `Step.write` of `Model/UcdHist.lean`)
+      -- reply: `currentFiles` of the session run from the empty object: every path written, with its final content
 ``` -/
 namespace Femio.C04
 open Femio.Proto Ucd Femio.Text
@@ -37,6 +41,14 @@ def showTab (t : VarTab Str) : String :=
 def showElem (e : Elem) : String := s!"{e.id} {showList toString e.conn}"
 def showBlock (b : Nat × List Elem) : String := s!"{b.1} {showList showElem b.2}"
 
+def stepP : P Step := do
+  let k ← tok
+  if k = "a" then do let f ← femP; pure (.assign f)
+  else if k = "i" then do let f ← femP; pure (.inplace f)
+  else if k = "w" then do let p ← nat; pure (.write p)
+  else failure
+def emptyFem : Fem Str := ⟨[], [], [], []⟩
+
 def handle : List String → Option String
   | "c04.write" :: rest => do
     let (al, f) ← run (do let al ← bool; let f ← femP; pure (al, f)) rest
@@ -48,6 +60,10 @@ def handle : List String → Option String
     | none => some "ok 0"
     | some r => some (s!"ok 1 {showList showIdRow r.nodes} {showList showBlock r.blocks} "
         ++ s!"{showList showTab (readTables r.nodalVars r.nodalRows)} {showList showTab (readTables r.elemVars r.elemRows)}")
+  | "c04.session" :: rest => do
+    let (pv, steps) ← run (do let pv ← bool; let st ← listOf stepP; pure (pv, st)) rest
+    let s := runSteps ⟨pv⟩ ⟨⟨emptyFem, emptyFem⟩, []⟩ steps
+    some ("ok " ++ showList (fun (q : Nat × Str) => s!"{q.1} {escape q.2}") (currentFiles s.files))
   | ["c04.ws"] => some ("ok " ++ showList toString wsCodes)
   | _ => none
 
